@@ -173,7 +173,7 @@ def body_seeds(cube, **kw):
 def queries(tier):
     ps = [I('t0', 0, 2), I('t1', 0, 2), I('dp', 0, 3), B('l02'), B('l102'), B('l12'), B('att'), I('via', 0, 2), I('cs', 0, len(CSV) - 1)]
     pre = ['via == 0 or (dp <= 1 and l102)', 'cs == 0 or (dp == 0 and l02 and l12)'] if tier == 'quick' else ['cs == 0 or dp <= 1']
-    qs = [Query(name='inproc', body=body_inproc, params=ps, split=['t0', 'via'], pre=pre, timeout=600 if tier == 'quick' else 1700,
+    qs = [Query(name='inproc', body=body_inproc, params=ps, split=['t0', 'via', 't1'], pre=pre, timeout=600 if tier == 'quick' else 1700,
                 witnesses=[({}, {'t0': 1, 't1': 0, 'dp': 2, 'l02': True, 'l102': True, 'l12': True, 'att': True, 'via': 0, 'cs': 0}),
                            ({}, {'t0': 0, 't1': 2, 'dp': 0, 'l02': True, 'l102': True, 'l12': False, 'att': True, 'via': 1, 'cs': 1}),
                            ({}, {'t0': 2, 't1': 1, 'dp': 1, 'l02': False, 'l102': True, 'l12': True, 'att': False, 'via': 2, 'cs': 2})],
